@@ -131,6 +131,12 @@ def rule_lc_check_inversion(ctx: Ctx) -> None:
         parts.insert(0, e.right)
         e = e.left
     parts.insert(0, e)
+    mid_ok = any(isinstance(a, ast.Assign) and norm(a.targets[0]) == norm(parts[1]) and isinstance(a.value, ast.Call)
+                 and (call_attr(a.value) == "converter_gate_list" or (isinstance(a.value.func, ast.Name) and a.value.func.id == "converter_gate_list")) for a in ast.walk(fn))
+    if not mid_ok:
+        ctx.fail("reverse.table", m, tot[0], f"the middle part of lc_check's total gate list (`{norm(parts[1])}`) is not the graph-to-graph conversion "
+                 f"(converter_gate_list): the order must be gates of state1, graph conversion, inverse(gates of state2)", func="lc_check",
+                 construct="lc_check: total list order (middle)")
     if norm(parts[0]) == g1:
         ctx.ok("reverse.table", m, tot[0], what="total list starts with the gates that take state1 to its graph")
     else:
@@ -199,6 +205,11 @@ def rule_lc_check_inversion(ctx: Ctx) -> None:
                 direction *= dd
                 nxt = v
                 continue
+            if isinstance(v, ast.Call) and call_attr(v) in ("converter_gate_list",) or (isinstance(v, ast.Call) and isinstance(v.func, ast.Name) and v.func.id == "converter_gate_list"):
+                ctx.fail("reverse.table", m, tot[0], f"the last part of lc_check's total gate list (`{norm(parts[2])}`) is the graph-to-graph conversion, not the "
+                         f"inverted gates of state2: the order must be gates of state1, graph conversion, inverse(gates of state2)", func="lc_check",
+                         construct="lc_check: total list order")
+                return
             raise AnalysisError(f"lc_check: derivation step `{short(dnode)}` of the inverted gate list not recognised")
         if nxt is None:
             break
